@@ -81,6 +81,37 @@ def benchmark_runs(ctx, quick=True):
     return runs
 
 
+def small_r_runs(ctx, count):
+    """r barely above 1 on objectives whose slopes equal the running estimate M (|x|, cones, linear): the rule's point then comes
+    within a few per cent of an interval end - the extreme corner of 'for every r > 1'"""
+    rng = ctx.rng
+    runs = []
+    for i in range(count):
+        n = rng.choice([1, 1, 1, 2])
+        lo, up = rand_box_solver(rng, n)
+        w = [b - a for a, b in zip(lo, up)]
+        c = [rng.uniform(a, b) for a, b in zip(lo, up)]
+        kind = rng.choice(["absx", "linear", "cone", "vee"])
+        if kind == "absx":
+            f = lambda y: sum(abs((t - ci) / wi) for t, ci, wi in zip(y, c, w))                                   # noqa: E731
+        elif kind == "linear":
+            g = [rng.choice([-1, 1]) * rng.uniform(0.5, 3) for _ in range(n)]
+            f = lambda y, g=g: sum(gi * (t - a) / wi for gi, t, a, wi in zip(g, y, lo, w))                       # noqa: E731
+        elif kind == "cone":
+            L = rng.uniform(0.5, 8)
+            f = lambda y, L=L: L * math.sqrt(sum(((t - ci) / wi) ** 2 for t, ci, wi in zip(y, c, w)))          # noqa: E731
+        else:
+            f = lambda y: max(3 * abs((y[0] - c[0]) / w[0]), 1 - 2 * abs((y[0] - c[0]) / w[0]))                  # noqa: E731
+        r = rng.choice([1.01, 1.03, 1.05, 1.1, 1.15, 1.2, 1.24])
+        run = SolverRun(FnProblem(n, lo, up, f, kind), r=r, eps=rng.choice([0.02, 0.05]), limit=rng.choice([40, 80]), m=10,
+                        tag=kind + "/small-r", full_snap=False, listener="none")
+        if rng.random() < 0.4:
+            run.dgi(rng.randint(2, 15))
+        run.solve()
+        runs.append(run)
+    return runs
+
+
 def past_budget_runs(ctx, count):
     """DoGlobalIteration ignores itersLimit: a run continued far past the budget the solver was built with (any structure sized by
     the budget is then too small), and Solve called again afterwards"""
@@ -215,7 +246,7 @@ def agp_design_mc(ctx, pid):
         cfgs.append(("N=1 r=2 eps=1/8 limit=5 Vals={0,1,2}", agp_cfg(faults=faults, invs=invs, props=props, maxtrials=5 if faults else 6)))
         cfgs.append(("N=2 r=3 eps=1/2 limit=5 Vals={0,1}", agp_cfg(dim=2, r="3", eps="1/2", vals=("0", "1"), faults=faults, invs=invs, props=props, maxtrials=5)))
     else:
-        for (r, eps, vals, limit, mt) in [("2", "1/8", ("0", "1", "2"), 7, 7), ("3", "1/10", ("0", "1", "2"), 6, 7), ("3/2", "1/4", ("0", "1", "3"), 6, 6),
+        for (r, eps, vals, limit, mt) in [("2", "1/8", ("0", "1", "2"), 7, 7), ("21/20", "1/8", ("0", "1", "2"), 6, 6), ("3", "1/10", ("0", "1", "2"), 6, 7), ("3/2", "1/4", ("0", "1", "3"), 6, 6),
                                           ("2", "1/20", ("0", "1", "2", "5"), 6, 6), ("4", "1/8", ("-1", "0", "1/2"), 6, 7)]:
             cfgs.append(("N=1 r=%s eps=%s limit=%d Vals=%s" % (r, eps, limit, "{" + ",".join(vals) + "}"),
                          agp_cfg(r=r, eps=eps, limit=limit, vals=vals, faults=faults, invs=invs, props=props, maxtrials=mt - (1 if faults else 0))))
